@@ -229,13 +229,28 @@ func Run[C any](t *testing.T, p Property[C]) {
 		if err := json.Unmarshal(env.Case, &c); err != nil {
 			t.Fatalf("replay: bad case in %s: %v", rp, err)
 		}
-		out := p.Check(c)
-		fresh, _ := judge(p.ID, "replay", c, out)
-		for _, v := range fresh {
-			t.Errorf("violation %s: %s", v.Key, v.Msg)
+		// VERIF_REPEAT=n re-runs the case n times (schedule-dependent failures)
+		n := 1
+		fmt.Sscanf(os.Getenv("VERIF_REPEAT"), "%d", &n)
+		bad := 0
+		for i := 0; i < n; i++ {
+			out := p.Check(c)
+			fresh, _ := judge(p.ID, "replay", c, out)
+			for _, v := range fresh {
+				t.Errorf("violation %s: %s", v.Key, v.Msg)
+			}
+			if len(fresh) > 0 {
+				bad++
+				if out.Artifacts != "" && os.Getenv("VERIF_SHOW_DIAG") != "" {
+					t.Logf("%s", out.Artifacts)
+				}
+			}
+			if out.Inconclusive != "" {
+				t.Logf("inconclusive: %s", out.Inconclusive)
+			}
 		}
-		if out.Inconclusive != "" {
-			t.Logf("inconclusive: %s", out.Inconclusive)
+		if n > 1 {
+			t.Logf("repeat: %d of %d runs violated", bad, n)
 		}
 		return
 	}
